@@ -1,7 +1,7 @@
 """C02: register values round-trip exactly through the wire encoding."""
 from lib import script
 
-THEOREMS = ["C02_driver_roundtrip", "C02_uint", "C02_int", "C02_int_bad_width", "C02_string", "C02_raw", "C02_any_response_accepted", "C02_hex_roundtrip"]
+THEOREMS = ["C02_driver_roundtrip", "C02_sequence", "C02_sequence_raw", "C02_uint", "C02_int", "C02_int_bad_width", "C02_string", "C02_raw", "C02_any_response_accepted", "C02_hex_roundtrip"]
 
 
 def run(res, args):
@@ -14,4 +14,4 @@ def run(res, args):
                     "instance, boundary and random 4/8-byte values, unsupported widths for the signed accessor, byte strings up to 64 bytes "
                     "with interior/trailing NULs and invalid UTF-8, device ids (every 16th in quick, all 65536 in thorough), sequences of up to 20 reads.",
                     partial=["slice aliasing of returned values is exercised (ALTERED flag), not proved",
-                             "sequences of reads on one instance and the typed composition (uint/int/string over the raw value) are exercised by correspondence + expectations; the proved driver-level statement is for one exchange on an idle driver"])
+                             "the proved history statement (C02_sequence) is for devices that answer every command with exactly the conforming frame (plus colon-free noise in front); histories with retries in between are exercised by correspondence + expectations"])
